@@ -167,11 +167,14 @@ def step (cfg : Cfg) (line : String) : String :=
     match bool01 hv, parseElem el with
     | some h, some e =>
       let (g, c, s1, s2) :=
-        if which == "deals" then (cfg.dealsDkgNil, cfg.dealsCast, "dkg.getAndProcessDeals|deref|dkg.ProcessDeal(deal)", "dkg.getAndProcessDeals|typeassert|d.(*Deal)")
-        else (cfg.respsDkgNil, cfg.respsCast, "dkg.getAndProcessResponses|deref|dkg.ProcessResponse(resp)", "dkg.getAndProcessResponses|typeassert|r.(*Response)")
-      match stageEntry g h s1 with
-      | .ok _ => (stageCast c e s2).show
-      | o => o.show
+        if which == "deals" then (cfg.dealsDkgNil, cfg.dealsCast, "dkg.DistKeyGenerator.ProcessDeal|nilreceiver|called by dkg.getAndProcessDeals: inventory key dkg.getAndProcessDeals|deref|dkg.ProcessDeal(deal)", "dkg.getAndProcessDeals|typeassert|d.(*Deal)")
+        else (cfg.respsDkgNil, cfg.respsCast, "dkg.DistKeyGenerator.ProcessResponse|nilreceiver|called by dkg.getAndProcessResponses: inventory key dkg.getAndProcessResponses|deref|dkg.ProcessResponse(resp)", "dkg.getAndProcessResponses|typeassert|r.(*Response)")
+      -- the element is asserted first, then the generator is used
+      if h then (stageCast c e s2).show
+      else if g then Out.dropped.show
+      else match stageCast c e s2 with
+        | .ok _ => (stageEntry g h s1).show
+        | o => o.show
     | _, _ => bad
   | ["dpk", l] => match l.toNat? with
     | some l => (decodePubKey cfg l).show
